@@ -2,3 +2,11 @@
 /* ghost names of uninterpreted terms for call-free loop invariants; tied by a
  * requires that exists only when the function itself is enforced (ENFORCE_*) */
 long g_absx; unsigned long g_bits;
+#ifdef GMP_ABS_TRACK_E
+/* the designated factor whose multiplicity the model tracks (gmp_abs.h, ghost field e): the table entry at the
+ * arbitrary (never assigned) index ghost_b; the other table entries do not contain it, everything else carries
+ * its own count */
+mpz_t *g_tab; size_t ghost_b;
+unsigned long verif_e_of(const __mpz_struct *b)
+{ if (__CPROVER_same_object(b, g_tab)) return b == &g_tab[ghost_b][0] ? 1UL : 0UL; return b->e; }
+#endif
